@@ -693,7 +693,7 @@ def callResult (cfg : CliCfg) (shape : Shape) (resp : CliResp) : List Item × Li
   | .error v => ([.err 12 .unsupported], [v])
   | .ok neg =>
     match resp.hdrStatus with
-    | some (c + 1) => ([.err (c + 1) .peerStatus], [])
+    | some (c + 1) => ([.err (c + 1) resp.peerCls], resp.accVals)
     | hs =>
       let items := clientItems (if hs.isSome then none else neg) hs.isSome resp
       if shape.singleResponse then
@@ -763,6 +763,7 @@ theorem call_advertise (cfg : CliCfg) (accept : List Enc) (hA : Agree cfg.accept
 
 /-- no item a client reports has the "unsupported encoding" class unless the response was refused -/
 theorem clientItems_cls (neg : Option Enc) (empty : Bool) (resp : CliResp) (it : Item)
+    (hp : resp.peerCls ≠ .unsupported)
     (h : it ∈ clientItems neg empty resp) : it ≠ .err 12 .unsupported := by
   have hdec : ∀ it ∈ decodeAll neg resp.frames, it ≠ .err 12 .unsupported := by
     intro it hit
@@ -790,7 +791,7 @@ theorem clientItems_cls (neg : Option Enc) (empty : Bool) (resp : CliResp) (it :
       · exact hdec it h
       · rcases List.mem_append.mp h with h | h
         · exact hdec it h
-        · simp only [List.mem_singleton] at h; subst h; simp
+        · simp only [List.mem_singleton] at h; subst h; simp [hp]
     · exact hdec it h
 
 theorem firstErr_mem (items : List Item) (c : Nat) (k : ErrCls)
@@ -805,7 +806,7 @@ theorem firstErr_mem (items : List Item) (c : Nat) (k : ErrCls)
       obtain ⟨rfl, rfl⟩ := h; simp
 
 theorem call_refuse (cfg : CliCfg) (accept : List Enc) (hA : Agree cfg.accept accept) (shape : Shape)
-    (umdEnc umdAcc : List Bytes) (k : Nat) (resp : CliResp) :
+    (umdEnc umdAcc : List Bytes) (k : Nat) (resp : CliResp) (hp : resp.peerCls ≠ .unsupported) :
     cliRefuse accept resp (call cfg shape umdEnc umdAcc k resp) = true := by
   have hrecv := fromEncoding_spec cfg.accept accept hA resp.encVals
   rw [call_eq]
@@ -815,7 +816,7 @@ theorem call_refuse (cfg : CliCfg) (accept : List Enc) (hA : Agree cfg.accept ac
   | error v => simp [toRecv]
   | ok neg =>
     have goal : ∀ it ∈ (match resp.hdrStatus with
-        | some (c + 1) => ([Item.err (c + 1) .peerStatus], ([] : List Bytes))
+        | some (c + 1) => ([Item.err (c + 1) resp.peerCls], resp.accVals)
         | hs =>
           let items := clientItems (if hs.isSome then none else neg) hs.isSome resp
           if shape.singleResponse then
@@ -825,7 +826,7 @@ theorem call_refuse (cfg : CliCfg) (accept : List Enc) (hA : Agree cfg.accept ac
           else (items, [])).1, it ≠ .err 12 .unsupported := by
       intro it hit
       split at hit
-      · simp only [List.mem_singleton] at hit; subst hit; simp
+      · simp only [List.mem_singleton] at hit; subst hit; simp [hp]
       · simp only at hit
         split at hit
         · split at hit
@@ -833,9 +834,9 @@ theorem call_refuse (cfg : CliCfg) (accept : List Enc) (hA : Agree cfg.accept ac
             simp only [List.mem_singleton] at hit; subst hit
             rcases unaryRead_error _ _ _ hu with ⟨_, rfl, rfl⟩ | hfe
             · simp
-            · exact clientItems_cls _ _ _ _ (firstErr_mem _ _ _ hfe)
+            · exact clientItems_cls _ _ _ _ hp (firstErr_mem _ _ _ hfe)
           · simp only [List.mem_singleton] at hit; subst hit; simp
-        · exact clientItems_cls _ _ _ _ hit
+        · exact clientItems_cls _ _ _ _ hp hit
     cases neg <;> simp only [toRecv, List.all_eq_true] <;> intro it hit <;>
       simpa using goal it hit
 
